@@ -421,7 +421,7 @@ static long constsMode() {
     for (auto const & c : vals) {
         if (!c.fits_slong_p()) continue;
         long cv = c.get_si();
-        if (cv == LONG_MIN || cv == LONG_MAX) continue;  // -c-1 must be representable for the identity to make sense
+        // (-c-1 is representable for every c of the range, the two extremes included)
         stats.evaluations++;
         SafeInt r = Converter<SafeInt>::negate(SafeInt(cv));
         if (mpz_class(r.value()) != -c - 1) { ++fails; failure = "Converter<SafeInt>::negate(" + c.get_str() + ")"; std::printf("FAIL %s\n", failure.c_str()); }
